@@ -18,6 +18,7 @@ struct Agg {
     findings: Vec<(String, Vec<u16>, String, String)>, // suite, hist, msg, image desc
     flushed_images: u64,
     samples: Vec<serde_json::Value>,
+    foreign: u64,
 }
 
 /// Image of the device after every logged write up to `pos` reached it.
@@ -116,17 +117,32 @@ pub struct CrashPlan {
     pub probe_auto_ts: bool,
 }
 
+/// Share of the time budget a suite gets. Nested passes (crash inside recovery) spend
+/// their time where recovery itself writes: TTL generations to retire, tiny devices.
+fn suite_weight(_prop: &str, nest: usize, name: &str) -> f64 {
+    if nest == 0 {
+        return 1.0;
+    }
+    if ["ttl", "end5", "full4", "small"].iter().any(|k| name.contains(k)) {
+        2.0
+    } else if ["uring", "core-v2", "edge", "evil"].iter().any(|k| name.contains(k)) {
+        0.5
+    } else {
+        1.0
+    }
+}
+
 pub fn crash_check(prop: &str, suites: Vec<Suite>, accept: &[&str], plan: CrashPlan, budget_s: f64, report: &mut Report) {
     let threads = worker_threads();
     let total = Deadline::new(budget_s);
-    let n = suites.len();
     let seen: Mutex<HashSet<u128>> = Mutex::new(HashSet::new());
     let mut per_suite = serde_json::Map::new();
     let mut foreign = 0u64;
     let mut all_complete = true;
     for (si, s) in suites.iter().enumerate() {
         let remaining = (budget_s - total.elapsed()).max(1.0);
-        let dl = Deadline::new(remaining / (n - si) as f64);
+        let ahead: f64 = suites[si..].iter().map(|x| suite_weight(prop, plan.nest, &x.name)).sum();
+        let dl = Deadline::new(remaining * suite_weight(prop, plan.nest, &s.name) / ahead);
         let agg: Mutex<Agg> = Mutex::new(Agg::default());
         let keys = crash::tables_keys(&s.tables);
         let on_path = |s: &Suite, hist: &[u16], po: &PathOutcome| {
@@ -184,13 +200,20 @@ pub fn crash_check(prop: &str, suites: Vec<Suite>, accept: &[&str], plan: CrashP
             if a.samples.len() < 3 && st.distinct > 2 {
                 a.samples.push(json!({"suite": s.name, "history": seq::describe_hist(s, hist), "crash_images": st.images, "distinct_new": st.distinct, "max_inflight_blocks": st.max_inflight}));
             }
+            // findings of other properties must not use up the cap of this check's own
             for f in findings {
-                if a.findings.len() < 64 {
+                let mine = super::tag_of(&f.msg).is_some_and(|t| accept.contains(&t.as_str()));
+                if !mine {
+                    a.foreign += 1;
+                } else if a.findings.len() < 64 {
                     a.findings.push((s.name.clone(), hist.to_vec(), f.msg, f.desc));
                 }
             }
             for m in layout_findings {
-                if a.findings.len() < 64 {
+                let mine = super::tag_of(&m).is_some_and(|t| accept.contains(&t.as_str()));
+                if !mine {
+                    a.foreign += 1;
+                } else if a.findings.len() < 64 {
                     a.findings.push((s.name.clone(), hist.to_vec(), m, "image at flush acknowledgement".into()));
                 }
             }
@@ -240,6 +263,7 @@ pub fn crash_check(prop: &str, suites: Vec<Suite>, accept: &[&str], plan: CrashP
                 foreign += 1;
             }
         }
+        foreign += a.foreign;
         let mut fs = a.findings;
         fs.sort_by_key(|(_, h, _, _)| h.len());
         for (suite, hist, msg, desc) in fs {
